@@ -722,6 +722,16 @@ func (w *Worker) runPath(ld *Loaded, harness string, prefix []int64) (res *PathR
 	res.Funcs = p.funcs
 	res.Params = p.params
 	res.Races, res.RacePairs, res.RaceQ = p.races, p.racePairs, p.raceQueries
+	if res.End == "unsupported" {
+		// a model of the inputs that lead outside the encoding: the native twin
+		// is run on a few of them to see whether the real code survives there
+		func() {
+			defer func() { recover() }()
+			if r, mv := p.sess.CheckWith(nil, p.inputTerms()); r == Sat {
+				res.Model = p.modelMap(mv)
+			}
+		}()
+	}
 	if res.End == "ok" || res.End == "panic" {
 		func() {
 			defer func() {
